@@ -6,7 +6,7 @@ a k-th distance tie accepted); the reference expectations come from a *fresh* co
 trained on exactly those rows.  Empty neighbourhoods must give all-NaN expectations and predict must stay
 inside the support of the configured empty-neighbourhood distribution.
 
-As built: Randomised learning policies (Thompson, Softmax, Popularity, Random, EpsilonGreedy(eps>0)) are checked too: the reference bandit is seeded with the row's own seed, reproduced from a clone of the bandit's generator (one int32 per row, drawn before partitioning). One 130-row batch in 1/12 of the cases.
+As built: Randomised learning policies (Thompson, Softmax, Popularity, Random, EpsilonGreedy(eps>0)) are checked too: the reference bandit is seeded with the row's own seed, reproduced from a clone of the bandit's generator (one int32 per row, drawn before partitioning). One 130-row batch in 1/12 of the cases. In a third of the histories the first batch arrives in a narrow dtype (uint8, int16, float32) and later batches bring coordinates outside its range.
 """
 from mon import env  # noqa: F401
 import math
@@ -79,6 +79,16 @@ def run_case(rs, ctx):
     n_chunks = int(rs.integers(1, 6))
     sizes = [int(rs.integers(3, 12))] + [int(rs.integers(1, 8)) for _ in range(n_chunks - 1)]
     chunks = [gen.gen_batch(rs, pre, arms, n, dims) for n in sizes]
+    if rs.integers(3) == 0:
+        # containers: the first batch arrives in the narrowest dtype that holds it (uint8 grid, single precision, ...), later
+        # batches bring coordinates outside that dtype's range (negative, > 255, > 2^24 and odd) in whatever container
+        chunks[0]["x_enc"] = gen.pick(rs, ["narrow", "narrow", "f4", "i8"])
+        shifts = [0.0, -3.0, -3.0] if lk in ("linucb", "lingreedy") else [0.0, -3.0, 254.0, 70000.0, 16777217.0]
+        for c in chunks[1:]:
+            sh_ = float(gen.pick(rs, shifts))
+            c["X"] = [[v + sh_ for v in row] for row in c["X"]]
+            c["x_enc"] = gen.pick(rs, [None, "i8", "narrow", "list", "frame"])
+        ctx.count("mixed_container_histories")
     nq = 4 if ctx.tier == "quick" else 6
     all_rows = [x for c in chunks for x in c["X"]]
     Q = []
